@@ -18,7 +18,7 @@ CLAIMS = {
  },
  'C05': {
   'technique': 'static analysis: MIR panic-site enumeration over the parser call graph with interval/dominance discharge and reviewed UTF-8-boundary sites',
-  'text': 'Partial, structural: decides "no input string makes the parser panic" (all may-panic sites reachable from from_str_radix/from_str/parse_bytes discharged or reviewed with re-checked guards). R-TABLE: every Ok(..) return of from_str_radix lies on the radix == 10 edge and the scale is computed from the parsed exponent through checked operations and widening casts only. GATEWAY (who-may-call): from_str and parse_bytes reach an integer/float text parser only through from_str_radix, so neither the radix check nor the decimal grammar can be bypassed. HEAD-OF-NUMERAL: the delegated integer parser can see a sign only at the head of the numeral (the '.+5' class, repaired). The accepted grammar and the denoted value are NOT decided.',
+  'text': 'Partial, structural: decides "no input string makes the parser panic" (all may-panic sites reachable from from_str_radix/from_str/parse_bytes discharged or reviewed with re-checked guards). R-TABLE: every Ok(..) return of from_str_radix lies on the radix == 10 edge and the scale is computed from the parsed exponent through checked operations and widening casts only. GATEWAY (who-may-call): from_str and parse_bytes reach an integer/float text parser only through from_str_radix, so neither the radix check nor the decimal grammar can be bypassed. HEAD-OF-NUMERAL: the delegated integer parser can see a sign only at the head of the numeral (the ".+5" class, repaired). The accepted grammar and the denoted value are NOT decided.',
   'note': TRUST + ' str::find returns a char-boundary index; BigInt::from_str_radix panics only for radix outside 2..=36.',
  },
  'C20': {
